@@ -77,6 +77,13 @@ func (c *Cluster) storeHook(path, kind, phase string) error {
 	}
 	n.storePoints++
 	c.stats.probe("store-point")
+	if n.maintenance && phase == "pre" {
+		if kind == "event" || kind == "block" {
+			c.violate("C17", "non-babbling-untouched", "maintenance-node-wrote-"+kind, "node %d runs in maintenance mode and wrote a %s record to its database (step %d)", n.idx, kind, c.stepNo)
+		} else {
+			c.stats.probe("maintenance-node-wrote-" + kind)
+		}
+	}
 	if c.storePointHook != nil {
 		c.storePointHook(n, kind, phase)
 	}
